@@ -3,7 +3,7 @@
 // VF-RULE: E2 under ASan+UBSan+libstdc++ assertions: for each entry point (one 'ep:' space each) every letter sequence of length 0..L over that entry point's alphabet of grammar-significant letters (characters, or words for description languages) times every listed option combination is fed to the real code; plus one 'rep:' space per entry point with every word w of 1..3 letters repeated to 64 and to 4096 bytes times every option combination. A case is non-trivial when its input is non-empty. Outcome of every case must be 'returned' or 'raised bpp::Exception'; foreign exceptions are caught by type, sanitizer reports/signals by the supervisor, non-termination by a per-case CPU-time watchdog.
 // VF-BOUND: byte strings up to 4 KiB are replaced by: all strings of length <= 5 (quick) / <= 7 (thorough) over 2..13 letters per entry point (the length is lowered per entry point so that a space stays under 100k (quick) / 2.5M (thorough) cases — the length actually used is in each space name), plus the repetition families w^k (|w|<=3 letters) of 64 and 4096 bytes. Inputs needing more distinct significant letters than that and lying outside the repetition families are not reached.
 // VF-LEVEL: bounded-exhaustive differential crash check: every listed (entry point, option combination, string) case is executed on the real code under sanitizers; no sampling, no mutation-based search
-// VF-ASSUME: ASan/UBSan/_GLIBCXX_ASSERTIONS detect the memory and arithmetic errors the property names (iterator arithmetic before begin() of a std::string is only seen when the corrupted result is read back);; a case that uses more than 0.05 s (short inputs; typical cases take 1-100 microseconds) / 2 s (4 KiB inputs; typical 0.1-400 ms) of CPU time does not terminate;; the character classification of the C locale
+// VF-ASSUME: ASan/UBSan/_GLIBCXX_ASSERTIONS detect the memory and arithmetic errors the property names (iterator arithmetic before begin() of a std::string is only seen when the corrupted result is read back);; a case that uses more than 0.1 s (short inputs; typical cases take 1-100 microseconds) / 2 s (4 KiB inputs; typical 0.1-400 ms) of CPU time does not terminate;; the character classification of the C locale
 // VF-TECHNIQUE: exhaustive small-scope input enumeration on the real code under sanitizers with forked, supervised workers
 // VF-BUDGET_QUICK: 420
 // VF-BUDGET_THOROUGH: 2400
@@ -595,6 +595,8 @@ int main(int argc, char** argv) {
   // ASan inflates stack frames (red zones); give the process 16 x the default 8 MB so that a stack overflow seen here implies one in an
   // uninstrumented build with the default stack (frames are at most ~16 x larger under ASan at -O1)
   { struct rlimit rl; if (getrlimit(RLIMIT_STACK, &rl) == 0) { rlim_t want = 128UL << 20; if (rl.rlim_max != RLIM_INFINITY && want > rl.rlim_max) want = rl.rlim_max; rl.rlim_cur = want; setrlimit(RLIMIT_STACK, &rl); } }
+  // one-time costs of the first exception (unwinder tables, backtrace symbols) are paid here, before any case is timed; workers inherit them
+  try { throw bpp::Exception("warm-up"); } catch (bpp::Exception& e) { use(string(e.what())); }
   vf::Runner R(argc, argv, "C16");
   bool th = R.thorough();
   silence();
@@ -635,7 +637,7 @@ int main(int argc, char** argv) {
     R.space(name, nS * O, [ep, A, O, sep](uint64_t idx, vf::Case& c) {
       int opt = (int)(idx % O); vector<int> d = seqOf(idx / O, A);
       string in; for (size_t i = 0; i < d.size(); ++i) { if (i) in += sep; in += ep.alpha[(size_t)d[i]]; }
-      execCase(ep, in, opt, c, 0.05);
+      execCase(ep, in, opt, c, 0.1);
       if (idx % 7919 == 11) c.sample(ep.name + " [" + ep.opts[(size_t)opt] + "] " + show(in) + (c.failed ? " -> violation" : " -> ok"));
     }, 6.0, 256);
     // ---- repetition families: every word of 1..3 letters repeated to >= 64 and >= 4096 bytes ----
@@ -652,14 +654,14 @@ int main(int argc, char** argv) {
       execCase(ep, in, opt, c, 2.0);
       if (idx % 1009 == 5) c.sample(ep.name + " [" + ep.opts[(size_t)opt] + "] (" + show(w) + ")^k, " + vf::str(in.size()) + " bytes" + (c.failed ? " -> violation" : " -> ok"));
     }, 60.0, 16);
-    if (!R.replay) {
+    if (!R.replay && R.timeLeft()) {   // (after the global deadline the spaces are reported as incomplete instead)
       R.expectSeen(ep.name + " returned");
       if (ep.canRaise) R.expectSeen(ep.name + " raised-bpp::Exception");
     }
   }
   R.note(capsNote);
   R.note(vf::str(nEP) + " entry-point groups covering ~90 public functions; each group's alphabet and option list is in the harness (buildEPs)");
-  R.note("outcome classes: '<entry point> returned' and '<entry point> raised-bpp::Exception' are the two permitted outcomes; everything else is a violation with signature kind|site|class; crash|<site>|exit97 is the CPU-time watchdog (the case did not terminate within 0.05 s / 2 s of CPU time)");
+  R.note("outcome classes: '<entry point> returned' and '<entry point> raised-bpp::Exception' are the two permitted outcomes; everything else is a violation with signature kind|site|class; crash|<site>|exit97 is the CPU-time watchdog (the case did not terminate within 0.1 s / 2 s of CPU time)");
   R.note("AttributesTools::removeComments is private; it is exercised through getAttributesMap (letters # / * and, in option 3, new-lines inside elements)");
   R.note("entry points that read files or the terminal (getAttributesMapFromFile, parseOptions with param=, fileExists on user paths) are not driven; getAFilePath is called with mustExist=false");
   return R.finish();
